@@ -2,6 +2,7 @@ package main
 
 import (
 	"fmt"
+	"go/types"
 	"sort"
 	"strings"
 
@@ -158,7 +159,7 @@ func ruleDET2(c *Ctx) []Obligation {
 			continue
 		}
 		seen[k] = true
-		obs = append(obs, Obligation{Key: "process-level write: " + k, Pos: c.pos(r.Pos), Verdict: VIOL,
+		obs = append(obs, Obligation{Key: "process-level write: " + k, Pos: c.pos(r.Pos), Verdict: VIOL, Tags: det2Tags(r.Fn),
 			Detail: fmt.Sprintf("parsing/printing can write %s (via %s): state that outlives the call makes results depend on what ran before, and races with concurrent parses", what, r.Path)})
 	}
 	// process-level state kept behind the synchronisation primitives of the standard library
@@ -191,15 +192,50 @@ func ruleDET2(c *Ctx) []Obligation {
 						continue
 					}
 					seen[k] = true
-					obs = append(obs, Obligation{Key: "process-level state: " + k, Pos: c.pos(in.Pos()), Verdict: VIOL,
+					obs = append(obs, Obligation{Key: "process-level state: " + k, Pos: c.pos(in.Pos()), Verdict: VIOL, Tags: det2Tags(fn),
 						Detail: fmt.Sprintf("parsing/printing uses the package-level variable %s through %s.%s (via %s): an object pool, cache or once-flag shared by all calls in the process lets one parse see what another left behind, and makes results depend on history and on concurrent parses", g.String(), cp, callee.Name(), pathTo(fn, parent))})
 				}
 			}
 		}
 	}
-	obs = append(obs, Obligation{Key: "no process-level writes", Verdict: OK,
+	obs = append(obs, Obligation{Key: "no process-level writes", Verdict: OK, Tags: []string{"lit", "enum"},
 		Detail: fmt.Sprintf("%d entry points, %d reachable functions scanned for stores to globals / through globals", len(roots), nfn)})
 	return obs
+}
+
+// det2Tags classifies the function in which process-level state is touched:
+// "lit" — literal reading/printing (ir/constant, mewmew/float); "enum" — a
+// function whose signature mentions an enum type of ir/enum or asm/enum, or a
+// function of those packages.
+func det2Tags(fn *ssa.Function) []string {
+	var tags []string
+	for f := fn; f != nil; f = f.Parent() {
+		if f.Pkg == nil {
+			continue
+		}
+		path := f.Pkg.Pkg.Path()
+		if path == pkgCONS || strings.HasPrefix(path, pkgFLT) {
+			tags = append(tags, "lit")
+		}
+		isEnum := path == pkgENUM || path == pkgAENM
+		mentions := func(t types.Type) {
+			if n := namedOf(t); n != nil && n.Obj().Pkg() != nil && (n.Obj().Pkg().Path() == pkgENUM || n.Obj().Pkg().Path() == pkgAENM) {
+				isEnum = true
+			}
+		}
+		if f.Signature != nil {
+			for i := 0; i < f.Signature.Params().Len(); i++ {
+				mentions(f.Signature.Params().At(i).Type())
+			}
+			for i := 0; i < f.Signature.Results().Len(); i++ {
+				mentions(f.Signature.Results().At(i).Type())
+			}
+		}
+		if isEnum {
+			tags = append(tags, "enum")
+		}
+	}
+	return tags
 }
 
 func init() {
